@@ -41,6 +41,8 @@ type Net struct {
 	// OnReadDone is called by the reading goroutine when a Read has taken n bytes
 	// off the connection (before the schedule point that follows).
 	OnReadDone func(c *Conn, n int)
+	// YieldOnWrite adds an optional schedule point at the beginning of every Write
+	YieldOnWrite bool
 	// OnFault is called (on the goroutine performing the operation) when an
 	// injected per-operation failure fires.
 	OnFault func(c *Conn, kind string)
@@ -472,6 +474,11 @@ func (c *Conn) Read(p []byte) (int, error) {
 
 func (c *Conn) Write(p []byte) (int, error) {
 	if simrt.AdoptSoft(c.label(), c.group) {
+		return 0, net.ErrClosed
+	}
+	// a write takes time: other goroutines run while this one is inside it
+	// (optional schedule point)
+	if c.net.YieldOnWrite && simrt.YieldSoft("netwrite-begin "+c.Name()) {
 		return 0, net.ErrClosed
 	}
 	c.mu.Lock()
